@@ -136,6 +136,7 @@ def lp_run(text, argv, getters=('get_results',), faults=None, time_limit=None, c
                     raise
                 out['exc'] = [type(e).__name__, str(e)[:200], 'solve']
             out['snaps'] = rec.solves
+            out['backend_plain'] = all(e.get('backend_plain', True) for e in rec.solves)
             out['nonintegral'] = rec.nonintegral
         if out['exc'] is None:
             # one run in three: another Solver object is built in the same process before the results are read
@@ -394,6 +395,51 @@ class MValid(LPRelation):
 
     def what(self, inp, obs):
         return 'Optimal run prints an invalid matching %r for argv %r on %r' % (self.matching(obs), inp['argv'], inp['text'])
+
+
+class MBackend(MValid):
+    name = 'M_backend'
+    kind = 'monitor'
+    shard = 4
+    describe = ('a few runs of the same generator plus one instance of more than 5000 residents (everybody ranks the own '
+                'hospital, some the next one too; two or three criteria): at every solve the back end must be configured '
+                'plainly (integer mode, no start solution from an earlier solve, no optimality gap, no extra options: the '
+                'model\'s oracle is an exact solve of the problem handed over and nothing else), and the printed matching of '
+                'an Optimal run must be valid (valid_b evaluated in Coq)')
+
+    def cases(self, ctx):
+        for c in gen_lp_cases(ctx, self.name, 12 if ctx.thorough else 4, **self.gen_kwargs):
+            yield c
+        rng = ctx.rng(self.name + '/scale')
+        for S in ([rng.randint(5001, 5200)] + ([rng.randint(401, 900), rng.randint(1001, 1500)] if ctx.thorough else [])):
+            first = [[[k + 1]] + ([[k + 2 if k + 2 <= S else 1]] if rng.random() < 0.3 else []) for k in range(S)]
+            ast = dict(na=2, n1=S, n2=S, first=first, projects=[[0, 1, j + 1] for j in range(S)],
+                       lecturers=[[0, 1, 1, []] for j in range(S)])
+            crits = gen_crits(rng, ast, names=rng.choice([['maxsize', 'mincost'], ['mincost', 'maxsize'],
+                                                          ['maxsize', 'gre', 'mincost'], ['minsqcost', 'maxsize']]))
+            crits = [(c, []) for c, _ in crits]
+            yield dict(text=instgen.render(ast), na=2, twopl=False, pc=False, stab=False,
+                       crits=[[c, x] for c, x in crits], argv=argv_of(2, False, False, False, crits, rng), ast=ast)
+
+    def observe(self, inp):
+        o = lp_run(inp['text'], inp['argv'])
+        o['n_solves'] = len(o.get('snaps') or [])
+        o['snaps'] = [1] * o['n_solves'] if inp['ast']['n1'] > 50 else o['snaps']     # the problems are not needed here
+        return o
+
+    def term(self, inp, obs):
+        if not obs.get('backend_plain', True):
+            return 'false'
+        return MValid.term(self, inp, obs)
+
+    def what(self, inp, obs):
+        if not obs.get('backend_plain', True):
+            return ('argv %r on an instance of %d first-side agents: the back end was not configured plainly at some solve '
+                    '(start solution / gap / options / relaxation)' % (inp['argv'], inp['ast']['n1']))
+        return MValid.what(self, inp, obs)
+
+    def shrink(self, inp):
+        return []
 
 
 class MStatus(LPRelation):
